@@ -131,7 +131,7 @@ func finePlan(prop, tier string) []PlanItem {
 		items = append(items, PlanItem{late, p + 1})
 	case "C08", "C19":
 		items = append(items,
-			PlanItem{fineDemote("fine/validateOrDemote-vs-demotion", Item{Do: "validateOrDemote"}), p},
+			PlanItem{fineDemote("fine/validateOrDemote-vs-demotion", Item{Do: "validateOrDemote"}), p + 1},
 			PlanItem{fineDemote("fine/stop-vs-demotion", Item{Do: "stop"}), p},
 			PlanItem{fineAcquire("fine/stop-vs-becomeLeader", Item{Do: "stop"}), p})
 	case "C11":
